@@ -446,9 +446,14 @@ fn op_store(ctx: &mut Ctx, op: &Value, ev: &mut Map<String, Value>) {
         "prepare" => {
             let q = get_cps(op, "q");
             let size = get_u(op, "size") as usize;
+            // `times`: the same call made that many times in a row (a long-lived index); the last answer is recorded
+            let times = std::cmp::max(1, get_u(op, "times")) as usize;
             let res = guarded(|| {
                 let query = tokenize_query(&string_of(&q), &sb.store.lang);
-                let ixs = sb.store.index.borrow_mut().prepare(&query.to_ref(), size);
+                let mut ixs = sb.store.index.borrow_mut().prepare(&query.to_ref(), size);
+                for _ in 1..times {
+                    ixs = sb.store.index.borrow_mut().prepare(&query.to_ref(), size);
+                }
                 (query, ixs)
             });
             match res {
